@@ -13,10 +13,16 @@ pub mod driver;
 mod ops;
 mod json;
 
+static PANIC_AT: std::sync::Mutex<String> = std::sync::Mutex::new(String::new());
+
 fn main()
 {
-    // keep panics quiet: they are reported as an answer, not on stderr
-    std::panic::set_hook(Box::new(|_| {}));
+    // keep panics quiet: they are reported as an answer, not on stderr; the place is remembered
+    std::panic::set_hook(Box::new(|info|
+    {
+        let at = info.location().map(|l| format!("{}:{}", l.file(), l.line())).unwrap_or_default();
+        *PANIC_AT.lock().unwrap() = at;
+    }));
 
     let args: Vec<String> = std::env::args().collect();
     let input: Box<dyn BufRead> = if args.len() > 1
@@ -60,7 +66,8 @@ fn main()
                 let msg = if let Some(s) = e.downcast_ref::<String>() { s.clone() }
                     else if let Some(s) = e.downcast_ref::<&str>() { s.to_string() }
                     else { "?".to_string() };
-                writeln!(out, "{{\"panic\":{}}}", json::string(&msg)).unwrap();
+                let at = PANIC_AT.lock().unwrap().clone();
+                writeln!(out, "{{\"panic\":{},\"at\":{}}}", json::string(&msg), json::string(&at)).unwrap();
                 out.flush().unwrap();
             }
         }
